@@ -14,6 +14,8 @@ pub enum Op {
     Pos,
     SetPos(u64),
     Len,
+    /// WordWrite::flush: nothing to do for a memory stream - array, cursor and length unchanged
+    Flush,
 }
 impl Op {
     fn to_string(self) -> String {
@@ -23,6 +25,7 @@ impl Op {
             Op::Pos => "p".into(),
             Op::SetPos(p) => format!("s{}", p),
             Op::Len => "l".into(),
+            Op::Flush => "f".into(),
         }
     }
     fn parse(s: &str) -> Op {
@@ -31,6 +34,7 @@ impl Op {
             "w" => Op::Write(s[1..].parse().unwrap()),
             "p" => Op::Pos,
             "s" => Op::SetPos(s[1..].parse().unwrap()),
+            "f" => Op::Flush,
             _ => Op::Len,
         }
     }
@@ -133,6 +137,10 @@ pub fn model(kind: Kind, arr: &[u128], mask: u128, seq: &[Op]) -> (Vec<Obs>, Vec
                 Kind::ReaderZext | Kind::ReaderStrict => Obs::NA,
                 _ => Obs::Num(a.len() as u64),
             },
+            Op::Flush => match kind {
+                Kind::ReaderZext | Kind::ReaderStrict => Obs::NA,
+                _ => Obs::Unit,
+            },
         });
     }
     (out, a)
@@ -153,7 +161,7 @@ macro_rules! drive_reader {
         for op in $seq {
             out.push(match *op {
                 Op::Read => ob(guard_v(|| $s.read_word()), |w: $W| Obs::Word(w as u128)),
-                Op::Write(_) | Op::Len => Obs::NA,
+                Op::Write(_) | Op::Len | Op::Flush => Obs::NA,
                 Op::Pos => ob(guard_v(|| $s.word_pos()), Obs::Num),
                 Op::SetPos(p) => ob(guard_v(|| $s.set_word_pos(p)), |_| Obs::Unit),
             });
@@ -170,6 +178,7 @@ macro_rules! drive_writer {
                 Op::Write(i) => ob(guard_v(|| $s.write_word(VALS[i as usize] as $W)), |_| Obs::Unit),
                 Op::Pos => ob(guard_v(|| $s.word_pos()), Obs::Num),
                 Op::SetPos(p) => ob(guard_v(|| $s.set_word_pos(p)), |_| Obs::Unit),
+                Op::Flush => ob(guard_v(|| WordWrite::flush(&mut $s)), |_| Obs::Unit),
                 Op::Len => {
                     let l = $s.len();
                     if $s.is_empty() != (l == 0) {
@@ -339,7 +348,7 @@ pub fn check_case(c: &Case, rep: &mut Report) {
 }
 
 fn alphabet(len: usize) -> Vec<Op> {
-    let mut v = vec![Op::Read, Op::Write(0), Op::Write(1), Op::Pos, Op::Len];
+    let mut v = vec![Op::Read, Op::Write(0), Op::Write(1), Op::Pos, Op::Len, Op::Flush];
     for p in 0..=(len as u64 + 2) {
         v.push(Op::SetPos(p));
     }
@@ -364,7 +373,7 @@ pub fn run(ctx: &Ctx) -> Report {
     let mut rep = par_items(ctx, "C13", &work, |&(kind, wbits, storage, len), rep| {
         let mut rng = Rng::derive(ctx.seed, crate::report::hash_of(&(0xC13u64, kind, wbits, storage, len)));
         let arr: Vec<u128> = (0..len).map(|i| (rng.next() as u128) << 64 | rng.next() as u128 | (i as u128 + 1)).collect();
-        let alpha: Vec<Op> = alphabet(len).into_iter().filter(|o| !(matches!(kind, Kind::ReaderZext | Kind::ReaderStrict) && matches!(o, Op::Write(1)))).collect();
+        let alpha: Vec<Op> = alphabet(len).into_iter().filter(|o| !(matches!(kind, Kind::ReaderZext | Kind::ReaderStrict) && matches!(o, Op::Write(1) | Op::Flush))).collect();
         // depth: deeper for the canonical configuration, shallower for the word/storage variants
         let canonical = wbits == 64 && storage == 0;
         let depth = match ctx.tier {
@@ -425,7 +434,13 @@ pub fn run(ctx: &Ctx) -> Report {
                     0..=2 => Op::Read,
                     3..=5 => Op::Write(rng.below(2) as u8),
                     6 => Op::Pos,
-                    7 => Op::Len,
+                    7 => {
+                        if rng.chance(1, 2) {
+                            Op::Len
+                        } else {
+                            Op::Flush
+                        }
+                    }
                     _ => Op::SetPos(if rng.chance(1, 20) { (1 << 32) + rng.below(5) } else { rng.below(l as u64 + 4) }),
                 })
                 .collect();
